@@ -26,7 +26,7 @@ CHECKS = {
    note="E2 parks tasks only at lock-free hook points; apply order per block is taken from the logger (called inside the latch)."),
  "C09": dict(engine=E2+" + "+E3, cat="exploration", ref="DESIGN.md 4/C09",
    technique="runtime monitoring: controlled scheduling of concurrent merging writers; final values compared with the fold of the deltas in the recorded per-block apply order; replicas checked for the rewritten absolute values; under real parallelism, recorded per-row histories of merge/put/read checked for linearizability (porcupine) and the fold oracle over thousands of commits",
-   text="Held on every executed interleaving: additive, order-sensitive (v*3+d) and concatenating merges end at the fold of all committed deltas in apply order, each exactly once; every committed transaction has a commit applied in every block it changed (incl. blocks visited in descending order); groups of six transactions merging into one cell of a block that does not exist yet lose no delta.",
+   text="Held on every executed interleaving: additive, order-sensitive (v*3+d) and concatenating merges end at the fold of all committed deltas in apply order, each exactly once; every committed transaction has a commit applied in every block it changed (incl. blocks visited in descending order); groups of six transactions merging into one cell of a block that does not exist yet lose no delta; merges counted into a column while indexes and triggers are created and dropped on it are all there.",
    note="E2 parks tasks only at lock-free hook points."),
  "C10": dict(engine=E3, cat="exploration", ref="DESIGN.md 4/C10",
    technique="runtime monitoring under real parallelism (race-detector build and plain build, micro-delays injected at commit hooks incl. inside the latch): per-row multi-column tag invariant asserted inside reader callbacks",
@@ -39,7 +39,7 @@ CHECKS = {
    text="Held on every prefix tried: error or a state at a commit boundary (complete state part + prefix of logged commits) / whole blocks of the state part; no panic, no hang, no partial commit delivered by Log.Range; every commit boundary state is anchored per block against the model (block as read + the recorded commits applied to it afterwards), incl. sources that grow into a new block before / after the state is written.",
    note="Reference states E_j are built by the same Restore from well-formed input; E_0, every E_j and E_m are anchored against the model / the primary's dump."),
  "C14": dict(engine="E6 writer-fault injector", cat="fault_enumeration", ref="DESIGN.md 4/C14",
-   technique="runtime fault injection at the destination io.Writer (every byte budget / call index / once / forever), with follow-up commit, healthy snapshot+restore vs model, two-column transactions read back after every fault, and fd/temp-file census with GC disabled",
+   technique="runtime fault injection at the destination io.Writer (every byte budget / call index / once / forever / fail-once partial write), with follow-up commit, healthy snapshot+restore vs model, two-column transactions read back after every fault, and fd/temp-file census with GC disabled",
    text="Held on every injected fault: error reported iff the destination failed, the collection kept committing, a later healthy snapshot restored to the model, no descriptor or temp file accumulated; the fault-free dry run round-trips and no Snapshot returned nil without handing over a byte.",
    note="Faults are injected at the writer passed to Snapshot only; GOMAXPROCS=1 workers plus a GOMAXPROCS=4 slice."),
  "C15": dict(engine=E2+" + "+E1, cat="exploration", ref="DESIGN.md 4/C15",
